@@ -8,6 +8,7 @@ package main
 //   V            SAVE through the command path, then wait until the snapshot goroutine has finished
 //   K            take a snapshot synchronously with an image of the data directory at every failpoint; restore every image
 //   F <what>     snapshot attempt made to fail: what = mkdir | state | manifest (the operation that is refused)
+//   L <manifest|state> <n>   leftover of an earlier crash: an n-byte temporary file where the next snapshot creates its own
 //   T            restart: a fresh instance on the same data directory with snapshot restore on
 //   Z <ms>       let real time pass (the snapshot ticker runs only during Z)
 // Output: "R ..", "G ..", "V <ok|skip|fail> ls=<lastsave> was=<lastsave before>", "K <point> err=<0|1> ls=<n> <digest>",
@@ -604,6 +605,19 @@ func main() {
 				}
 				fmt.Fprintf(out, "V %s ls=%d was=%d\n", outcome(), in.db.VerifLatestSnapshot(), was)
 				out.Flush()
+			case "L":
+				// leftover of an earlier crash: a temporary file (longer than anything a snapshot writes) where the next
+				// snapshot will create its own; it must be overwritten from the start, not reused
+				n, _ := strconv.Atoi(f[2])
+				junk := bytes.Repeat([]byte("x"), n)
+				var p string
+				if f[1] == "manifest" {
+					p = filepath.Join(in.dir, "snapshots", "manifest.bin.tmp")
+				} else {
+					p = filepath.Join(in.dir, "snapshots", fmt.Sprintf("%d", in.clk.Now().UnixMilli()), "state.bin.tmp")
+				}
+				os.MkdirAll(filepath.Dir(p), 0o755)
+				os.WriteFile(p, junk, 0o644)
 			case "T":
 				now := in.clk.Now().UnixMilli()
 				old := in
